@@ -314,6 +314,8 @@ def run(F, res, tier):
     locality_comes_from_the_registered_path(F, res)
     module_locality_implies_package_locality(F, res)
     name_classes_of_the_lexer(F, res)
+    from rules import c01 as _c01
+    _c01.lexer_reads_its_whole_input(F, res, rule="V14")   # the one-token test of a new name lexes the name itself, whole
     # prepare_rename/rename refuse a module qualifier: they see it as one only through the recorded module resolution
     from rules import c05 as _c05q
     _c05q.module_qualifier_is_always_recorded(F, res, rule="V13")
